@@ -87,3 +87,7 @@ func VerifC03_Local() {
 	_, missing := err.(ChunkMissing)
 	vAssert(missing, "missing object not reported as ChunkMissing")
 }
+
+// VerifC03_ReaderRetry: consumers of the stores - the seekable reader must not hand out bytes of
+// another chunk after a store request failed (see verifReaderRetry in the C09 harnesses).
+func VerifC03_ReaderRetry() { verifReaderRetry() }
